@@ -192,36 +192,75 @@ def kwHistory (call : Option Int → Int → Option Int × Option Int) : Option 
 /-! ## §2d  the generator object as state: the cached candidate table and the source hypothesis group manager
 
 `MCMultiDatasetSignalGenerator` keeps the candidate table (with weight sum and CDF) it built in the constructor;
-`change_shg_mgr` has to rebuild it.  State: the manager in force and the manager the cached table was built from
-(managers are identified by a number; the table is a function of the manager). -/
+`change_shg_mgr` has to rebuild it — also when it is handed the manager *object* it already holds, because
+`Analysis.change_source` replaces a source inside the existing manager and then calls `change_shg_mgr` with that
+same object.  Manager objects are identified by a number and carry a content version that every in-place
+modification increases; the table is a function of (object, version). -/
 
 inductive GenOp where
   | use                      -- generate_signal_events / mu2flux: reads the cached table
-  | changeMgr (m : Nat)      -- change_shg_mgr(m)
+  | changeMgr (m : Nat)      -- change_shg_mgr(manager object m)
+  | mutate (m : Nat)         -- a source is replaced in place inside manager object m
 
 structure GenSt where
+  /-- the manager object the generator holds -/
   mgr : Nat
-  cached : Nat
+  /-- content version of every manager object -/
+  ver : Nat → Nat
+  /-- (object, version) the cached table was built from -/
+  cached : Nat × Nat
 
-/-- -> (state after the operation, manager whose table the operation works with) -/
-def genStep (s : GenSt) : GenOp → GenSt × Nat
+/-- -> (state after the operation, (object, version) whose candidates the generator works with afterwards) -/
+def genStep (s : GenSt) : GenOp → GenSt × (Nat × Nat)
   | .use => (s, s.cached)
-  | .changeMgr m => (⟨m, m⟩, m)
+  | .changeMgr m => ({ s with mgr := m, cached := (m, s.ver m) }, (m, s.ver m))
+  | .mutate m => ({ s with ver := fun k => if k = m then s.ver k + 1 else s.ver k }, s.cached)
 
 /-- a `change_shg_mgr` that forgets to rebuild the candidates — not the code; for the counterexample -/
-def genStepStale (s : GenSt) : GenOp → GenSt × Nat
+def genStepStale (s : GenSt) : GenOp → GenSt × (Nat × Nat)
   | .use => (s, s.cached)
-  | .changeMgr m => (⟨m, s.cached⟩, s.cached)
+  | .changeMgr m => ({ s with mgr := m }, s.cached)
+  | .mutate m => ({ s with ver := fun k => if k = m then s.ver k + 1 else s.ver k }, s.cached)
 
-def genRun (step : GenSt → GenOp → GenSt × Nat) : GenSt → List GenOp → List Nat
+/-- a `change_shg_mgr` that returns early when it is handed the object it already holds — not the code -/
+def genStepSameObj (s : GenSt) : GenOp → GenSt × (Nat × Nat)
+  | .use => (s, s.cached)
+  | .changeMgr m => if m = s.mgr then (s, s.cached) else ({ s with mgr := m, cached := (m, s.ver m) }, (m, s.ver m))
+  | .mutate m => ({ s with ver := fun k => if k = m then s.ver k + 1 else s.ver k }, s.cached)
+
+def genRun (step : GenSt → GenOp → GenSt × (Nat × Nat)) : GenSt → List GenOp → List (Nat × Nat)
   | _, [] => []
   | s, op :: ops => (step s op).2 :: genRun step (step s op).1 ops
 
-/-- specification: every operation works with the manager in force at that moment -/
-def genSpec : Nat → List GenOp → List Nat
-  | _, [] => []
-  | m, .use :: ops => m :: genSpec m ops
-  | _, .changeMgr m' :: ops => m' :: genSpec m' ops
+/-- specification: after `change_shg_mgr(m)` everything works with the content manager `m` had at that call —
+tracked without any cache: the versions and the (object, version) in force -/
+def genSpec : (Nat → Nat) → Nat × Nat → List GenOp → List (Nat × Nat)
+  | _, _, [] => []
+  | ver, f, .use :: ops => f :: genSpec ver f ops
+  | ver, _, .changeMgr m :: ops => (m, ver m) :: genSpec ver (m, ver m) ops
+  | ver, f, .mutate m :: ops => f :: genSpec (fun k => if k = m then ver k + 1 else ver k) f ops
+
+/-! ## §2e  `Analysis.generate_signal_events`: merging the signal into the events handed in
+
+`n_events_list[ds] += len(sig_events)`; `events_list[ds] = sig_events` if it was `None`, else `.append(sig_events)`.
+The count handed in need not be the length of the array handed in (background generated with an event
+pre-selection: `n_bkg > len(bkg_events)`). -/
+
+/-- one dataset entry: (count, length of the event array or `none`) plus `k` signal events -/
+def mergeOne (e : Nat × Option Nat) (k : Nat) : Nat × Option Nat :=
+  (e.1 + k, match e.2 with | none => some k | some l => some (l + k))
+
+/-- the loop over `ds_sig_events_dict.items()` (`none` = IndexError for a dataset index out of range) -/
+def mergeSig : List (Nat × Option Nat) → List (Nat × Nat) → Option (List (Nat × Option Nat))
+  | st, [] => some st
+  | st, (d, k) :: rest =>
+    match st[d]? with
+    | none => none
+    | some e => mergeSig (st.set d (mergeOne e k)) rest
+
+/-- a variant that recomputes the count from the array length — not the code; for the counterexample -/
+def mergeOneLen (e : Nat × Option Nat) (k : Nat) : Nat × Option Nat :=
+  (match e.2 with | none => k | some l => l + k, match e.2 with | none => some k | some l => some (l + k))
 
 /-- round half to even on ℚ (`np.round`) -/
 def rintQ (q : Rat) : Int :=
